@@ -562,6 +562,32 @@ example : GoNfsd.Model.Fsck.chkPtrs
       inodes := [{ inum := 2, kind := 1, nlink := 1, gen := 0, size := 0, shrink := 0, blks := [600, 0, 0, 0, 0, 0, 0, 0, 0, 0] }],
       sz := 2000 } = false := by decide
 
+/-- ... and the checker's "sizes agree with the blocks present" (no block at or beyond
+    `max(⌈size/4096⌉, ShrinkSize)`): on the image of files that satisfy the bookkeeping invariant
+    `InoOK`, which every history of WRITEs, READs of holes and resizes keeps
+    (`Props/C05.nothing_mapped_beyond_the_bookkeeping`: `inoRun_ok`). -/
+theorem checker_sizes_on_the_image_of_files_in_bookkeeping (s : GoNfsd.Model.BlockMap.S)
+    (files : List (Nat × GoNfsd.Model.BlockMap.Ino)) (h : ∀ f ∈ files, GoNfsd.Model.BlockMap.InoOK s f.2) :
+    GoNfsd.Model.Fsck.chkSizes (GoNfsd.Model.BlockMap.imageOfInos s.st files) = true :=
+  GoNfsd.Model.BlockMap.imageOfInos_sizes s files h
+
+/-- in particular after any history of one file from the empty file -/
+theorem checker_sizes_after_any_history (allocs : List Nat) (hd : GoNfsd.Model.BlockMap.DistinctNZ allocs)
+    (ops : List GoNfsd.Model.BlockMap.IOp) (hops : ∀ op ∈ ops, op.ok) (inum : Nat) :
+    GoNfsd.Model.Fsck.chkSizes (GoNfsd.Model.BlockMap.imageOfInos
+      (GoNfsd.Model.BlockMap.inoRun ({ st := GoNfsd.Model.BlockMap.emptyStore, allocs := allocs }, GoNfsd.Model.BlockMap.emptyIno) ops).1.st
+      [(inum, (GoNfsd.Model.BlockMap.inoRun ({ st := GoNfsd.Model.BlockMap.emptyStore, allocs := allocs }, GoNfsd.Model.BlockMap.emptyIno) ops).2)]) = true := by
+  apply GoNfsd.Model.BlockMap.imageOfInos_sizes
+  intro f hf
+  rw [List.mem_singleton] at hf
+  subst hf
+  exact GoNfsd.Model.BlockMap.inoRun_ok _ ops (GoNfsd.Model.BlockMap.InoOK_empty allocs hd) hops
+
+/-- the clause is not vacuous: a block at file index 3 of a file whose size accounts for one block fails it -/
+example : GoNfsd.Model.Fsck.chkSizes
+    { (default : GoNfsd.Model.Fsck.Image) with
+      inodes := [{ inum := 2, kind := 1, nlink := 1, gen := 0, size := 100, shrink := 0, blks := [700, 0, 0, 701, 0, 0, 0, 0, 0, 0] }] } = false := by decide
+
 /-- the test is not vacuous on images: two inodes pointing at one block fail it, and so does an
     inode whose index block repeats a direct pointer -/
 example : GoNfsd.Model.Fsck.chkOneOwner
